@@ -16,12 +16,19 @@ import (
 // newExec creates an abstract interpreter bound to the analysed tree.
 func newExec(c *core.Ctx) *absint.Exec {
 	x := absint.New(c.P.SSA, c.P.InScope)
+	x.FuncVars = core.FuncVars
+	x.FuncField = func(ptrT types.Type, i int) *ssa.Function {
+		if k, ok := core.FuncFieldKey(ptrT, i); ok {
+			return core.FuncFields[k]
+		}
+		return nil
+	}
 	if c.Deep {
 		// thorough tier, second pass: two exactly explored iterations per loop, deeper inlining
 		x.MaxDepth = 7
 		x.Unroll = 2
 		x.MaxStates = 400000
-		x.MaxWall = 60 * time.Second
+		x.MaxWall = 300 * time.Second
 	} else {
 		x.MaxDepth = 5
 	}
@@ -148,7 +155,7 @@ func closuresPassedTo(fn *ssa.Function, target *ssa.Function, argIdx int) []*ssa
 	for _, b := range fn.Blocks {
 		for _, in := range b.Instrs {
 			ci, ok := in.(ssa.CallInstruction)
-			if !ok || ci.Common().StaticCallee() != target || argIdx >= len(ci.Common().Args) {
+			if !ok || core.Callee(ci.Common()) != target || argIdx >= len(ci.Common().Args) {
 				continue
 			}
 			if f := funcOfValue(ci.Common().Args[argIdx]); f != nil {
@@ -184,3 +191,18 @@ func fieldName(ptrT types.Type, i int) string {
 }
 
 func constantBool(b bool) constant.Value { return constant.MakeBool(b) }
+
+// uniqueImpl: a Devirt hook that follows an interface method call on a value of unknown dynamic type into its
+// implementation when the call graph knows exactly one, and that one is in the tree.
+func uniqueImpl(c *core.Ctx) func(in *ssa.Function, site ssa.CallInstruction) *ssa.Function {
+	return func(in *ssa.Function, site ssa.CallInstruction) *ssa.Function {
+		var only *ssa.Function
+		for _, cal := range calleesOf(c.P, in, site, c.P.CallGraph()) {
+			if only != nil || !c.P.InScope(cal) {
+				return nil
+			}
+			only = cal
+		}
+		return only
+	}
+}
